@@ -199,6 +199,38 @@ def idxArg (args : List String) (dflt : Nat) : Option Nat :=
 /-- the receiver a re-routed output goes to: the initiator (user 0), or user 1 if it is the initiator's already -/
 def otherTo (to : Nat) : Nat := if to == 0 then 1 else 0
 
+/-! ### multiset mutations of a list that keep its length (or add one copy): positions are 0-based -/
+
+/-- entry `i` replaced by a copy of entry `j` -/
+def dupAt (l : List α) (i j : Nat) : Option (List α) :=
+  match l[j]? with
+  | some x => if i < l.length && i != j then some (l.set i x) else none
+  | none => none
+
+/-- entries `i` and `j` change places -/
+def swapAt (l : List α) (i j : Nat) : Option (List α) :=
+  match l[i]?, l[j]? with
+  | some x, some y => if i != j then some ((l.set i y).set j x) else none
+  | _, _ => none
+
+/-- entry `i` dropped, a copy of entry `j` appended -/
+def dropDupAt (l : List α) (i j : Nat) : Option (List α) :=
+  match l[j]? with
+  | some x => if i < l.length && i != j then some (l.eraseIdx i ++ [x]) else none
+  | none => none
+
+/-- a copy of entry `j` appended -/
+def copyAt (l : List α) (j : Nat) : Option (List α) := (l[j]?).map (fun x => l ++ [x])
+
+/-- the four edits by name (`dup i j`, `swap i j`, `dd i j`, `copy j`) -/
+def listEdit (l : List α) (how : String) (args : List String) : Option (List α) :=
+  match how, args.mapM (·.toNat?) with
+  | "dup", some [i, j] => dupAt l i j
+  | "swap", some [i, j] => swapAt l i j
+  | "dd", some [i, j] => dropDupAt l i j
+  | "copy", some [j] => copyAt l j
+  | _, _ => none
+
 /-- one mutation of the abstract transaction; `none` = does not apply.  `iadd` takes an output out of the
 paying account's unspent ones, so the driver state is returned too. -/
 def mutate (d : DState) (p : Pending) (pre : Pre) (t : Tx) (cls : String) (args : List String) (rest : String) :
@@ -319,8 +351,54 @@ def mutate (d : DState) (p : Pending) (pre : Pre) (t : Tx) (cls : String) (args 
   -- no requests, no reads, only the transient entries of the write set: re-executing nothing produces nothing
   | "noreq", [] => if t.cin == [] && t.cx == [] && t.ev == [] then none
                    else pure' { t with prog := fun _ => none, limit := 0, kin := [], kout := [] }
+  -- multiset mutations of the declared read set (positions in `TxInputsExt`)
+  | "rdup", _ => (listEdit t.kin "dup" args).bind (fun l => pure' { t with kin := l })
+  | "rswap", _ => (listEdit t.kin "swap" args).bind (fun l => pure' { t with kin := l })
+  | "rdd", _ => (listEdit t.kin "dd" args).bind (fun l => pure' { t with kin := l })
+  | "rcopy", _ => (listEdit t.kin "copy" args).bind (fun l => pure' { t with kin := l })
+  -- declared contract output i replaced by a copy of declared contract output j (declaration only / declaration and
+  -- real outputs alike)
+  | "xdup", [i, j] => do
+    let i ← i.toNat?; let j ← j.toNat?
+    let a ← t.cx[i]?; let b ← t.cx[j]?
+    if a == b || i ≥ pre.cx.length || j ≥ pre.cx.length then none
+    pure' { t with cx := t.cx.set i b }
+  | "xdupb", [i, j] => do
+    let i ← i.toNat?; let j ← j.toNat?
+    let a ← t.cx[i]?; let b ← t.cx[j]?
+    if a == b || i ≥ pre.cx.length || j ≥ pre.cx.length then none
+    pure' { t with cx := t.cx.set i b, outs := t.outs.set i b }
+  -- declared contract input i replaced by a copy of declared contract input j; the real input that spent it is
+  -- replaced by an output of the initiator
+  | "idup", [i, j] => do
+    let i ← i.toNat?; let j ← j.toNat?
+    let l ← dupAt t.cin i j
+    pure' { t with cin := l, ins := t.ins.set i 1000000 }
+  -- declared events: one replaced by a copy of another, two swapped
+  | "evdup", [i, j] => do
+    let i ← i.toNat?; let j ← j.toNat?
+    let a ← t.ev[i]?; let b ← t.ev[j]?
+    if a == b then none
+    pure' { t with ev := t.ev.set i b }
+  | "evswap", [i, j] => do
+    let i ← i.toNat?; let j ← j.toNat?
+    let a ← t.ev[i]?; let b ← t.ev[j]?
+    if a == b then none
+    pure' { t with ev := (t.ev.set i b).set j a }
   | "same", [] => pure' t
   | _, _ => none
+
+/-- the mutation classes that edit the list `TxOutputsExt` itself (positions count transient entries too):
+`wdup i j`, `wswap i j`, `wdd i j`, `wcopy j`; every other class edits the decoded transaction and is encoded -/
+def mutateRaw (d : DState) (p : Pending) (pre : Pre) (t : Tx) (cls : String) (args : List String) (rest : String) :
+    Option (RawTx × DState) :=
+  let raw := t.raw
+  match cls with
+  | "wdup" => (listEdit raw.wext "dup" args).map (fun w => ({ raw with wext := w }, d))
+  | "wswap" => (listEdit raw.wext "swap" args).map (fun w => ({ raw with wext := w }, d))
+  | "wdd" => (listEdit raw.wext "dd" args).map (fun w => ({ raw with wext := w }, d))
+  | "wcopy" => (listEdit raw.wext "copy" args).map (fun w => ({ raw with wext := w }, d))
+  | _ => (mutate d p pre t cls args rest).map (fun (t', d') => (t'.raw, d'))
 
 def afterWords (line : String) (n : Nat) : String :=
   -- the rest of the line after the first n words (single spaces between them)
@@ -377,7 +455,7 @@ def step (d : DState) (line : String) : DState × String :=
       match p.tx with
       | none => (d, "n/a")
       | some t =>
-        let (db', ok) := submit bks d.price fuel d.db { t with id := id }
+        let (db', ok) := submitRaw bks d.price fuel d.db ({ t with id := id } : Tx).raw
         ({ d with db := db' }, if ok then "accept" else "reject")
     | _, _ => (d, "bad-op")
   | "mut" :: slot :: cls :: args =>
@@ -386,14 +464,15 @@ def step (d : DState) (line : String) : DState × String :=
     | some p =>
       match p.pre, p.tx with
       | some pre, some t =>
-        match mutate d p pre t cls args (afterWords line 3) with
+        match mutateRaw d p pre t cls args (afterWords line 3) with
         | none => (d, "n/a")
         | some (t', d') =>
           -- which stage refuses: `State.VerifyTx` (reads current, gas, declared contract inputs / outputs real,
-          -- re-execution) or only the xmodel admission of `State.DoTx` (written keys are declared reads)
-          let v1 := readsCurrent d.db t'.kin && decide (d.price * t'.limit ≤ t'.fee) && effective t' &&
-            reexecOK bks fuel d.db t'
-          (d', if !v1 then "reject-v" else if !writesRead t' then "reject-d" else "accept")
+          -- re-execution, comparison of the write set lists) or only the xmodel admission of `State.DoTx`
+          -- (written keys are declared reads); the conjuncts of `verifyRaw`
+          let v1 := readsCurrent d.db t'.kin && decide (d.price * t'.limit ≤ t'.fee) && effective t'.view &&
+            reexecRaw bks fuel d.db t'
+          (d', if !v1 then "reject-v" else if !writesRead t'.view then "reject-d" else "accept")
       | _, _ => (d, "n/a")
   | ["mine"] => (d, "ok")
   | ["replica"] => (d, "same")
